@@ -279,6 +279,8 @@ def obligations(tier):
         for evict in ("root", "M"):
             for epl in (1, 2):
                 n += 1
+                if q and epl == 2 and (n // 2) % 3 != 0:
+                    continue       # quick tier: every third skeleton also with 2-element lines; the thorough tier runs all
                 tag = "%s/%s/%s/e%d" % ("-".join("%d%d%d" % (r[0], r[1], r[4]) for r in rows), "".join(map(str, wmask)), evict, epl)
                 obs.append(Ob("buffet/" + tag, "buffet", dict(rows=rows, wmask=wmask, evict=evict, epl=epl), ["cap", "cap2", "S"], ["0 <= cap", "cap <= cap2", "0 <= S"]))
     for mrows, mw, krows, kw in [
@@ -287,7 +289,7 @@ def obligations(tier):
         ([[0, 0, 2]], [1], [[0, 0, 0, 10, 0], [0, 1, 0, 11, 1]], [2, 1]),
     ]:
         tag = "-".join("%d%d" % (r[0], r[2]) for r in mrows) + "_" + "-".join("%d%d%d" % (r[0], r[1], r[4]) for r in krows)
-        obs.append(Ob("buffet2/" + tag, "buffet2", dict(mrows=mrows, mw=mw, krows=krows, kw=kw), ["cap", "SM", "SK"], ["0 <= cap", "1 <= SM", "1 <= SK"]))
+        obs.append(Ob("buffet2/" + tag, "buffet2", dict(mrows=mrows, mw=mw, krows=krows, kw=kw), ["cap", "shm", "shk"], ["0 <= cap", "1 <= shm", "1 <= shk"]))
     for seq in _rgs(5 if q else 7, 3 if q else 4):
         for posmap, epl in (([0, 1, 2, 3], 1), ([7, 2, 5, 0], 1), ([0, 1, 2, 3], 2)):
             if q and epl == 2 and len(seq) > 4:
